@@ -235,7 +235,7 @@ def check(idx: Index, rep: Report, tier: str) -> str:
 
     r1 = rep.rule("C15.R1", "every integer-result arith implementation returns a value that went through a width normaliser with the bit-width of the result type", floor=10)
     r2 = rep.rule("C15.R2", "signedness-sensitive integer operations convert both operands with the matching normaliser before using them", floor=4)
-    r5 = rep.rule("C15.R5", "integer operations never go through true (float) division", floor=10)
+    r5 = rep.rule("C15.R5", "integer operations never go through float arithmetic (true division, math.fmod / floor / ..., float())", floor=10)
     helpers = {f.name: f for f in idx.module(IA).functions.values() if f.cls is None}
     for opname, d in table:
         if not is_int_binop(opname):
@@ -273,8 +273,10 @@ def check(idx: Index, rep: Report, tier: str) -> str:
         # true division
         called = [helpers[call_attr(c)] for c in calls_in(d.node) if call_attr(c) in helpers]
         divs = [x for fn in [d] + called for x in walk_local(fn.node) if isinstance(x, ast.BinOp) and isinstance(x.op, ast.Div)]
+        # the same through the float library: math.fmod / floor / ceil / trunc / remainder / pow, float(), divmod on floats
+        divs += [x for fn in [d] + called for x in calls_in(fn.node) if re.fullmatch(r"(math\.)?(fmod|remainder|floor|ceil|trunc|pow|sqrt|log2?|copysign)|float", unparse(x.func))]
         if divs:
-            r5.fail(inst, Finding("C15.R5", d.fq, f"float-division:{opname}", f"`{unparse(divs[0])}` computes an integer operation through float division: exact only below 2**53, so 64-bit operands give wrong quotients / remainders", f"{IA}:{divs[0].lineno}"))
+            r5.fail(inst, Finding("C15.R5", d.fq, f"float-division:{opname}", f"`{unparse(divs[0])}` computes an integer operation through float arithmetic (true division or a float library function): exact only below 2**53, so 64-bit operands give wrong quotients / remainders", f"{IA}:{divs[0].lineno}"))
         else:
             r5.ok(inst, None)
 
